@@ -236,6 +236,31 @@ fn never_type_written(s: &str, toks: &[tok::Tok]) -> bool {
     false
 }
 
+/// A `/` or `%` inside the initialiser of a constant (`const X: T = .. / .. ;`)
+fn const_init_has_division(s: &str, toks: &[tok::Tok]) -> bool {
+    let text = |t: &tok::Tok| &s[t.start..t.end];
+    let mut i = 0;
+    while i < toks.len() {
+        if toks[i].kind == Kind::Keyword && text(&toks[i]) == "const" {
+            let mut depth = 0i32;
+            let mut j = i + 1;
+            while j < toks.len() {
+                match text(&toks[j]) {
+                    "{" | "(" | "[" => depth += 1,
+                    "}" | ")" | "]" => depth -= 1,
+                    ";" if depth <= 0 => break,
+                    "/" | "%" | "/=" | "%=" => return true,
+                    _ => {}
+                }
+                j += 1;
+            }
+            i = j;
+        }
+        i += 1;
+    }
+    false
+}
+
 /// Features of the source text(s) of an input
 pub fn features(s: &str) -> Value {
     let toks = tok::tokens(s);
@@ -301,8 +326,7 @@ pub fn features(s: &str) -> Value {
         "eq_or_list": eq_or_list,
         "never_type_written": never_type_written(s, &toks),
         "loop_kw": has("while") || has("for"),
-        "const_kw": has("const"),
-        "div_or_mod": toks.iter().any(|t| matches!(text(t), "/" | "%" | "/=" | "%=")),
+        "const_init_has_division": const_init_has_division(s, &toks),
     })
 }
 
@@ -323,7 +347,7 @@ pub fn may_die(s: &str) -> bool {
     }
     // constant initialisers are evaluated while compiling
     if s.contains("const ") && (s.contains('/') || s.contains('%')) {
-        return true;
+        return const_init_has_division(s, &tok::tokens(s));
     }
     false
 }
@@ -438,7 +462,7 @@ pub fn matches_parts(matcher: &str, class: &str, c: &Value) -> bool {
         }
         // N12: constant initialisers run while compiling; integer division traps (C10) kill the compiling process
         "const_division_by_zero_at_compile_time" => {
-            (class == "signal:SIGILL" || class == "signal:SIGFPE") && on("const_kw") && on("div_or_mod")
+            (class == "signal:SIGILL" || class == "signal:SIGFPE") && on("const_init_has_division")
         }
         // N5
         "eq_on_zero_sized_field" => {
